@@ -530,8 +530,11 @@ class Account:
                    outputs=1, broadcast=False, **constraints):
         assert self.ledger == to_account.ledger, 'Can only transfer between accounts of the same ledger.'
         if everything:
-            utxos = await self.get_utxos(**constraints)
-            await self.ledger.reserve_outputs(utxos)
+            # select and reserve under the same lock as coin selection, otherwise a concurrent
+            # transaction build can pick one of these outputs between the two steps
+            async with self.ledger._utxo_reservation_lock:  # pylint: disable=protected-access
+                utxos = await self.get_utxos(**constraints)
+                await self.ledger.reserve_outputs(utxos)
             tx = await Transaction.create(
                 inputs=[Input.spend(txo) for txo in utxos],
                 outputs=[],
